@@ -209,6 +209,102 @@ func foreignThroughSibling(name string, kind int, async bool, variant int) *spec
 	return b.s
 }
 
+// unexportedForeign: an exported constructor of a sibling package returns an
+// unexported type that another provider of that package consumes. The main
+// package can pass the value on (x := svc.NewHidden()) but can never spell
+// its type: variant 0 needs no spelling, variant 1 (goroutines -> var block)
+// and variant 2 (nobody supplies it -> injector argument) do.
+func unexportedForeign(name string, variant int) *spec.Spec {
+	b := newBuilder(name)
+	b.s.Dynamic = false
+	b.s.NoForward = true
+	svc := b.ext("svc", "svc", "")
+	hid := b.ptr(b.strct("hidden", svc))
+	app := b.ptr(b.strct("App", svc))
+	other := b.ptr(b.strct("Other", ""))
+	top := b.ptr(b.strct("Top", ""))
+	p1 := b.fn("NewHidden", svc, nil, []int{hid}, variant == 1, false)
+	p2 := b.fn("NewApp", svc, []int{hid}, []int{app}, false, false)
+	p3 := b.fn("NewOther", "", nil, []int{other}, variant == 1, false)
+	p4 := b.fn("NewTop", "", []int{app, other}, []int{top}, false, false)
+	if variant == 2 {
+		b.inject("InitTop", top, p2, p3, p4)
+	} else {
+		b.inject("InitTop", top, p1, p2, p3, p4)
+	}
+	b.s.Features = append(b.s.Features, fmt.Sprintf("unexported-type-of-sibling-package-%d", variant))
+	return b.s
+}
+
+// setReferenceForms: the ways a declaration can mention a Set other than by a
+// bare identifier. form 0: (localSet), nested (sets) and (providers) in
+// parentheses - plain Go, same meaning as without them; form 1: a Set variable
+// declared in a sibling package, referenced as svc.ProviderSet (the generator
+// documents this as unsupported: it must still terminate, and whatever it
+// emits must be one compilable function per declaration).
+func setReferenceForms(name string, form int, async bool) *spec.Spec {
+	b := newBuilder(name)
+	cfg := b.ptr(b.strct("Config", ""))
+	db := b.ptr(b.strct("Database", ""))
+	cache := b.ptr(b.strct("Cache", ""))
+	app := b.ptr(b.strct("App", ""))
+	p1 := b.fn("NewConfig", "", nil, []int{cfg}, false, false)
+	p2 := b.fn("NewDatabase", "", []int{cfg}, []int{db}, async, true)
+	p3 := b.fn("NewCache", "", []int{cfg}, []int{cache}, async, false)
+	p4 := b.fn("NewApp", "", []int{db, cache}, []int{app}, false, false)
+	if form == 0 {
+		b.s.Parens = true
+		b.s.Sets = []*spec.SetDef{
+			{Name: "StorageSet", Items: []spec.Item{{Prov: p2}, {Prov: p3}}},
+			{Name: "BaseSet", Items: []spec.Item{{Prov: p1}, {Prov: -1, Set: "StorageSet"}}},
+		}
+		b.s.Injectors = append(b.s.Injectors, &spec.Injector{Name: "InitializeApp", Ret: app, Items: []spec.Item{{Prov: -1, Set: "BaseSet"}, {Prov: p4}}})
+		b.s.Injectors = append(b.s.Injectors, &spec.Injector{Name: "InitializeCache", Ret: cache, Items: []spec.Item{{Prov: p1}, {Prov: -1, Inline: []spec.Item{{Prov: -1, Set: "StorageSet"}}}}})
+		b.s.Features = append(b.s.Features, "set-and-provider-expressions-in-parentheses")
+		return b.s
+	}
+	b.s.Dynamic = false
+	svc := b.ext("svc", "svc", "")
+	tok := b.ptr(b.strct("Token", svc))
+	b.fn("NewToken", svc, nil, []int{tok}, async, false)
+	gw := b.ptr(b.strct("Gateway", ""))
+	p6 := b.fn("NewGateway", "", []int{tok, app}, []int{gw}, false, false)
+	b.s.ExtDecl = map[string]string{svc: "var ProviderSet = kessoku.Set(kessoku.Provide(NewToken))\n"}
+	b.s.Injectors = append(b.s.Injectors, &spec.Injector{Name: "InitializeGateway", Ret: gw, Items: []spec.Item{{Prov: -1, Raw: "svc.ProviderSet"}, {Prov: p1}, {Prov: p2}, {Prov: p3}, {Prov: p4}, {Prov: p6}}})
+	b.s.Features = append(b.s.Features, "set-variable-of-a-sibling-package")
+	return b.s
+}
+
+// allInvocationModes makes what a corpus program exercises independent of its
+// position in the list: the program itself is generated by one run over all
+// its files; a copy "…v" by one run per file (programs with several files);
+// and a pair of copies "…u","…w" by ONE run spanning both packages, so that
+// the second package meets a name pool in which every name it will ask for
+// (imports, variables, channels) is already taken once.
+func allInvocationModes(specs []*spec.Spec) []*spec.Spec {
+	var out []*spec.Spec
+	for _, s := range specs {
+		s.InvMode = "one"
+		out = append(out, s)
+		if len(s.Files) > 1 {
+			v := renamed(s, s.Name+"v")
+			v.InvMode = "per"
+			out = append(out, v)
+		}
+		u, w := renamed(s, s.Name+"u"), renamed(s, s.Name+"w")
+		u.InvMode, u.PairWith = "first", w.Name
+		w.InvMode, w.PairWith = "pair", u.Name
+		out = append(out, u, w)
+	}
+	return out
+}
+
+func renamed(s *spec.Spec, name string) *spec.Spec {
+	c := s.Clone()
+	c.Name, c.PkgName = name, name
+	return c
+}
+
 // corpusSpecs returns the fixed regression declarations that run at every
 // seed for the given property.
 func corpusSpecs(prop string) []*spec.Spec {
@@ -225,16 +321,40 @@ func corpusSpecs(prop string) []*spec.Spec {
 			}
 			fs = append(fs, foreignThroughSibling(fmt.Sprintf("kf%s%ds", prop[1:], k), k, false, 0))
 		}
-		return append(fs, append([]*spec.Spec{twinConfigs("k"+prop[1:]+"a", false), sameNamedPackages("k"+prop[1:]+"c"), foreignAliasSecondFile("k"+prop[1:]+"f")}, keywordSweepSpecs("kw"+prop[1:])...)...)
+		fs = append(fs, setReferenceForms("ks"+prop[1:]+"p", 0, true), setReferenceForms("ks"+prop[1:]+"x", 1, true))
+		if prop == "C04" {
+			for v := 0; v < 3; v++ {
+				fs = append(fs, unexportedForeign(fmt.Sprintf("ku04v%d", v), v))
+			}
+		}
+		return allInvocationModes(append(fs, append([]*spec.Spec{twinConfigs("k"+prop[1:]+"a", false), sameNamedPackages("k"+prop[1:]+"c"), foreignAliasSecondFile("k"+prop[1:]+"f")}, keywordSweepSpecs("kw"+prop[1:])...)...))
+	case "C09":
+		return []*spec.Spec{setReferenceForms("ks09p", 0, false), setReferenceForms("ks09q", 0, true), setReferenceForms("ks09x", 1, false), setReferenceForms("ks09y", 1, true)}
 	case "C02", "C01", "C10", "C11":
 		var fs []*spec.Spec
+		if prop == "C02" || prop == "C01" || prop == "C10" {
+			fs = append(fs, setReferenceForms("ks"+prop[1:]+"p", 0, false), setReferenceForms("ks"+prop[1:]+"q", 0, true))
+		}
 		if prop == "C10" || prop == "C11" {
 			for k := 0; k < 4; k++ {
 				fs = append(fs, foreignThroughSibling(fmt.Sprintf("kf%s%da", prop[1:], k), k, true, 0), foreignThroughSibling(fmt.Sprintf("kf%s%db", prop[1:], k), k, true, 2))
 			}
 		}
-		return append(fs, []*spec.Spec{twinConfigs("k"+prop[1:]+"a", false), sameNamedPackages("k"+prop[1:]+"c"),
+		fs = append(fs, []*spec.Spec{twinConfigs("k"+prop[1:]+"a", false), sameNamedPackages("k"+prop[1:]+"c"),
 			structValueAndPointer("k"+prop[1:]+"d", false, false), structValueAndPointer("k"+prop[1:]+"e", true, true), foreignAliasSecondFile("k"+prop[1:]+"f")}...)
+		switch prop {
+		case "C10":
+			return allInvocationModes(fs)
+		case "C11":
+			var out []*spec.Spec
+			for _, s := range allInvocationModes(fs) {
+				if s.InvMode == "one" || s.InvMode == "per" {
+					out = append(out, s)
+				}
+			}
+			return out
+		}
+		return fs
 	}
 	return nil
 }
